@@ -4,6 +4,7 @@ package main
 // stdlib / runtime helpers.
 
 import (
+	"sync"
 	"fmt"
 	"go/types"
 	"hash/adler32"
@@ -14,6 +15,8 @@ import (
 	"golang.org/x/tools/go/ssa"
 )
 
+var fnNames sync.Map
+
 const verifrtPath = "github.com/intel/fastgo/internal/verifrt."
 
 func (in *Interp) strArg(v Val) string {
@@ -22,9 +25,15 @@ func (in *Interp) strArg(v Val) string {
 }
 
 func (in *Interp) intrinsic(fn *ssa.Function, args []Val) (Val, bool) {
-	name := fn.String()
+	var name string
+	if v, ok := fnNames.Load(fn); ok {
+		name = v.(string)
+	} else {
+		name = fn.String()
+		fnNames.Store(fn, name)
+	}
 	if in.ex != nil {
-		in.ex.funcs[name]++
+		in.ex.fcount[fn]++
 	}
 	if strings.HasPrefix(name, verifrtPath) {
 		return in.verifrt(name[len(verifrtPath):], fn, args)
@@ -240,8 +249,7 @@ func (in *Interp) verifrt(name string, fn *ssa.Function, args []Val) (Val, bool)
 	case "Assume":
 		c := args[0]
 		if t, ok := c.x.(*Term); ok {
-			pc.assertTerm(t)
-			pc.modelOK = false
+			pc.assume(in, t)
 			return Val{}, true
 		}
 		if c.c == 0 {
